@@ -230,3 +230,4 @@ def run(ck):
               "key and value go from their tokens into params unchanged" if not touched else
               "`%s` rewrites the parameter name / value before it is stored: the media type no longer has the parameter it was written with"
               % (touched[0].get("t") or "")[:70])
+    lib.no_stale_static_rule(ck, "C18-R6", ('mime.cc',), "the media-type reader and writer")
